@@ -160,7 +160,7 @@ def run_property(prop, tier, seed, jobs):
     for o in failed:
         rep = o.get("replay")
         confirmed = bool(rep and rep.get("confirmed"))
-        if rep is not None and not confirmed and rep.get("failed") == [] and rep.get("error") is None and rep.get("checked", 0) > 0:
+        if rep is not None and not confirmed and rep.get("failed") == [] and rep.get("error") is None and rep.get("checked", 0) > 0 and rep.get("evaluated"):
             # counter-model does not reproduce natively: spurious (abstraction too weak) -> undecided, never a violation
             o2 = dict(o)
             o2["status"] = "undecided"
